@@ -179,7 +179,7 @@ def encode_decode(ctx, objs):
         else:
             sres = objs['Call2'].funcs['apply'].sym(a0, a1, phased)
         ctx.under_contract(SCALA[0], 'Call%d.apply' % ploidy)
-        ctx.add(core.valid('C34/encode/ploidy=%d/engine-accepts-every-call-in-range' % ploidy, dom, z3.Not(sres.throws)))
+        ctx.add(core.valid('C34/encode/ploidy=%d/engine-accepts-every-call-in-range' % ploidy, dom, z3.Not(sres.throws), cvc5_first=(ploidy == 2)))
         # ---- front end
         cap = []
         eng = pyvc.Engine(ctx, encode_contract(ploidy, bv64(a0), bv64(a1), phased, cap, dom))
@@ -196,7 +196,7 @@ def encode_decode(ctx, objs):
         rep = {0: z3.BitVecVal(0, 32), 1: a0, 2: z3.UDiv(k * (k + 1), z3.BitVecVal(2, 32)) + j}[ploidy]
         spec = z3.If(phased, z3.BitVecVal(1, 32), z3.BitVecVal(0, 32)) | z3.BitVecVal(ploidy << 1, 32) | (rep << 3)
         ctx.add(core.valid('C34/encode/ploidy=%d/front-end-writes-the-int32-the-engine-builds' % ploidy, dom, z3.And(z3.Extract(31, 0, written) == sres.value, written == z3.SignExt(32, sres.value))))
-        ctx.add(core.valid('C34/encode/ploidy=%d/engine-call-is-the-specified-packing (VCF-ordered pair index)' % ploidy, dom, sres.value == spec))
+        ctx.add(core.valid('C34/encode/ploidy=%d/engine-call-is-the-specified-packing (VCF-ordered pair index)' % ploidy, dom, sres.value == spec, cvc5_first=(ploidy == 2)))
         ctx.add(core.satisfiable('C34/encode/ploidy=%d/canary/domain-non-trivial' % ploidy, dom + [a0 > 100, a1 > 100, phased]))
         # ---- decode of exactly that int32 (written as the specification term: equal to the engine's term by the obligation above)
         r = spec
@@ -205,7 +205,7 @@ def encode_decode(ctx, objs):
         draised = []
         deng.at_raise = lambda st, exc, draised=draised: draised.append(z3.And(*st.pc) if st.pc else z3.BoolVal(True))
         deng.run()
-        ctx.add(core.valid('C34/decode/ploidy=%d/front-end-decodes-every-engine-call-in-range' % ploidy, dom, z3.Not(z3.Or(*draised)) if draised else z3.BoolVal(True)))
+        ctx.add(core.valid('C34/decode/ploidy=%d/front-end-decodes-every-engine-call-in-range' % ploidy, dom, z3.Not(z3.Or(*draised)) if draised else z3.BoolVal(True), cvc5_first=(ploidy == 2)))
         goals = []
         for pc_, alleles, ph in dcap:
             cond = z3.And(*pc_) if pc_ else z3.BoolVal(True)
@@ -221,7 +221,7 @@ def encode_decode(ctx, objs):
             eq = [to_z3(x, 'bv64') == w for x, w in zip(al, want)] + [deng.truthy(ph) == phased]
             goals.append(z3.Implies(cond, z3.And(*eq)))
         ctx.add(core.decided('C34/decode/ploidy=%d/decoder-reaches-the-Call-constructor' % ploidy, bool(dcap), '%d paths' % len(dcap), kind='vacuity'))
-        ctx.add(core.valid('C34/decode/ploidy=%d/round-trip-same-alleles-and-phasing' % ploidy, dom, z3.And(*goals) if goals else z3.BoolVal(False)))
+        ctx.add(core.valid('C34/decode/ploidy=%d/round-trip-same-alleles-and-phasing' % ploidy, dom, z3.And(*goals) if goals else z3.BoolVal(False), cvc5_first=(ploidy == 2)))
         # ---- the engine reads the same fields back
         cobj = objs['Call']
         ctx.add(core.valid('C34/decode/ploidy=%d/engine-reads-back-ploidy-phasing-representation' % ploidy, dom, z3.And(cobj.funcs['ploidy'].sym(r).value == ploidy, cobj.funcs['isPhased'].sym(r).value == phased, cobj.funcs['alleleRepr'].sym(r).value == rep)))
